@@ -1357,12 +1357,14 @@ def b_tree(draw, depth, wild=None, ext=False, root=False, tags=None):
     def rec():
         return draw(b_tree(depth - 1, wild, ext, False, tags))
 
-    def maybe_star(ch, lo):
-        # star wildcards only in variadic operand lists
+    def maybe_star(ch, lo, commutative=False):
+        # star wildcards only in variadic operand lists; two in one list only
+        # for sequences (matchpy's commutative matching of two sequence
+        # wildcards against a long operand list takes seconds)
         if wild is not None and wild["stars"] and draw(st.integers(0, 99)) < wild["p_star"]:
             name = wild["stars"].pop(0)
             ch.insert(draw(st.integers(lo, len(ch))), ["StarWildcard", name])
-            if wild["stars"] and draw(st.integers(0, 9)) < 2:
+            if wild["stars"] and not commutative and draw(st.integers(0, 9)) < 2:
                 name = wild["stars"].pop(0)
                 ch.insert(draw(st.integers(lo, len(ch))), ["StarWildcard", name])
         return ch
@@ -1371,7 +1373,7 @@ def b_tree(draw, depth, wild=None, ext=False, root=False, tags=None):
         n = draw(st.sampled_from((2, 2, 3, 3, 4) if wild is None else (1, 2, 2, 3)))
         ch = [rec() for _ in range(n)]
         if tag in ("Sum", "Product", "LogicalAnd"):
-            ch = maybe_star(ch, 0)
+            ch = maybe_star(ch, 0, True)
         if len(ch) < 2 and not any(c[0] == "StarWildcard" for c in ch):
             ch.append(rec())
         return [tag, ch]
